@@ -79,18 +79,49 @@ pub fn histories(tier: Tier) -> Vec<Vec<usize>> {
 enum Dest {
     Plain(MemSink),
     Buffered(BufWriter<MemSink>),
+    /// a destination that accepts at most `.1` bytes per `write` call (legal for io::Write:
+    /// pipes, sockets, throttled writers, and write(2) itself above ~2 GiB behave like this)
+    Short(MemSink, usize),
 }
 impl Write for Dest {
     fn write(&mut self, b: &[u8]) -> std::io::Result<usize> {
         match self {
             Dest::Plain(m) => m.write(b),
             Dest::Buffered(m) => m.write(b),
+            Dest::Short(m, n) => {
+                let k = b.len().min(*n);
+                m.write(&b[..k])
+            }
         }
     }
     fn flush(&mut self) -> std::io::Result<()> {
         match self {
             Dest::Plain(m) => m.flush(),
             Dest::Buffered(m) => m.flush(),
+            Dest::Short(m, _) => m.flush(),
+        }
+    }
+}
+
+#[derive(Clone, Copy, PartialEq)]
+enum DestKind {
+    Plain,
+    Buffered,
+    Short,
+}
+impl DestKind {
+    fn make(self, sink: &MemSink) -> Dest {
+        match self {
+            DestKind::Plain => Dest::Plain(sink.clone()),
+            DestKind::Buffered => Dest::Buffered(BufWriter::new(sink.clone())),
+            DestKind::Short => Dest::Short(sink.clone(), 700),
+        }
+    }
+    fn name(self) -> &'static str {
+        match self {
+            DestKind::Plain => "plain_dest",
+            DestKind::Buffered => "bufwriter_dest",
+            DestKind::Short => "short_writing_dest",
         }
     }
 }
@@ -114,11 +145,11 @@ pub fn c12x(ctx: &Ctx, begin: &mut dyn FnMut(J)) -> Outcome {
     out.nontrivial = k >= 1;
     let mut programs = 0u64;
     for inmemory in [true, false] {
-        for buffered in [false, true] {
+        for dk in [DestKind::Plain, DestKind::Buffered, DestKind::Short] {
             // (A) switch after p producer steps (steps = k writes + drop), then await
             for p in 0..=k + 1 {
                 programs += 1;
-                let site_base = format!("{}:{}", if inmemory { "inmemory" } else { "tempfile" }, if buffered { "bufwriter_dest" } else { "plain_dest" });
+                let site_base = format!("{}:{}", if inmemory { "inmemory" } else { "tempfile" }, dk.name());
                 let r = wr::guard(|| -> Result<(), (String, J)> {
                     let sink = MemSink::new();
                     let (mut buf, writer): (TempFileBuffer<Dest>, TempFileBufferWriter<Dest>) = TempFileBuffer::new(inmemory);
@@ -127,8 +158,7 @@ pub fn c12x(ctx: &Ctx, begin: &mut dyn FnMut(J)) -> Outcome {
                     let mut switched = false;
                     for step in 0..=k + 1 {
                         if step == p {
-                            let d = if buffered { Dest::Buffered(BufWriter::new(sink.clone())) } else { Dest::Plain(sink.clone()) };
-                            buf.switch(d);
+                            buf.switch(dk.make(&sink));
                             switched = true;
                         }
                         // readiness poll at every position
@@ -163,7 +193,7 @@ pub fn c12x(ctx: &Ctx, begin: &mut dyn FnMut(J)) -> Outcome {
             }
             // (B) never switched: len() then expect_closed_write
             programs += 1;
-            let site_base = format!("{}:{}:no_switch", if inmemory { "inmemory" } else { "tempfile" }, if buffered { "bufwriter_dest" } else { "plain_dest" });
+            let site_base = format!("{}:{}:no_switch", if inmemory { "inmemory" } else { "tempfile" }, dk.name());
             let r = wr::guard(|| -> Result<(), (String, J)> {
                 let sink = MemSink::new();
                 let (buf, mut writer): (TempFileBuffer<Dest>, TempFileBufferWriter<Dest>) = TempFileBuffer::new(inmemory);
@@ -183,7 +213,7 @@ pub fn c12x(ctx: &Ctx, begin: &mut dyn FnMut(J)) -> Outcome {
                 if l != total {
                     return Err(("len_wrong".into(), J::obj().set("len", l.into()).set("written", total.into())));
                 }
-                let mut d = if buffered { Dest::Buffered(BufWriter::new(sink.clone())) } else { Dest::Plain(sink.clone()) };
+                let mut d = dk.make(&sink);
                 buf.expect_closed_write(&mut d).map_err(|e| ("copy_error".to_string(), J::s(e.to_string())))?;
                 d.flush().map_err(|e| ("flush_error".to_string(), J::s(e.to_string())))?;
                 drop(d);
@@ -264,7 +294,7 @@ fn signature(tr: &[hooks::Ev]) -> (String, String) {
 pub fn c12t(ctx: &Ctx, begin: &mut dyn FnMut(J)) -> Outcome {
     let mut r = Rng::derive(ctx.seed, 0xC12, ctx.case);
     let inmemory = r.chance(1, 2);
-    let buffered = r.chance(1, 2);
+    let dk = *r.pick(&[DestKind::Plain, DestKind::Buffered, DestKind::Short]);
     let nwrites = *r.pick(&[0usize, 1, 2, 5, 20, 60]);
     let sizes: Vec<usize> = (0..nwrites).map(|_| *r.pick(&[0usize, 1, 7, 100, 4096, 8192, 20_000])).collect();
     let policy = r.below(5) as usize;
@@ -274,7 +304,7 @@ pub fn c12t(ctx: &Ctx, begin: &mut dyn FnMut(J)) -> Outcome {
     begin(
         J::obj()
             .set("inmemory", inmemory.into())
-            .set("bufwriter_dest", buffered.into())
+            .set("dest", dk.name().into())
             .set("writes", J::A(sizes.iter().map(|s| J::U(*s as u64)).collect()))
             .set("delay_policy", policy.into())
             .set("consumer_delay_us", consumer_delay_us.into())
@@ -305,7 +335,7 @@ pub fn c12t(ctx: &Ctx, begin: &mut dyn FnMut(J)) -> Outcome {
         if consumer_delay_us > 0 {
             std::thread::sleep(std::time::Duration::from_micros(consumer_delay_us));
         }
-        let dest = if buffered { Dest::Buffered(BufWriter::new(sink.clone())) } else { Dest::Plain(sink.clone()) };
+        let dest = dk.make(&sink);
         if use_len_path {
             let l = buf.len().map_err(|e| ("len_error".to_string(), J::s(e.to_string())))?;
             if l != total {
@@ -330,7 +360,7 @@ pub fn c12t(ctx: &Ctx, begin: &mut dyn FnMut(J)) -> Outcome {
     hooks::set_policy(0, 0, false);
     let tr = hooks::take_trace();
     let (sig, handoff) = signature(&tr);
-    let site_base = format!("{}:{}", if inmemory { "inmemory" } else { "tempfile" }, handoff);
+    let site_base = format!("{}:{}:{}", if inmemory { "inmemory" } else { "tempfile" }, dk.name(), handoff);
     match res {
         Ok(Ok(())) => {}
         Ok(Err((class, d))) => out.viol(&class, site_base.clone(), d.set("interleaving", J::s(sig.clone()))),
